@@ -104,7 +104,7 @@ HeapUpdateTarget(h, oid) ==
 HeapRename(h, tid) ==
   LET o == h[tid]
       w1 == IF Has(o, "alphaqed") THEN Del(Put(o, "alphaem", o["alphaqed"]), "alphaqed") ELSE o
-      w2 == IF Has(w1, "QED") THEN Del(Put(w1, "order", Atom(<<w1["PTO"][2] + 1, w1["QED"][2]>>)), "QED") ELSE w1
+      w2 == IF Has(w1, "QED") THEN Del(Put(w1, "order", Atom(<<"PTO+1", w1["QED"][2]>>)), "QED") ELSE w1
   IN [h EXCEPT ![tid] = w2]
 \* compatibility.update(theory = object 1, observables = object 2): returns <<heap', newT, newO>>
 HeapUpdate(h, tid, oid) ==
